@@ -41,13 +41,27 @@ Definition D_single (D : DT) (d : nat) : Prop :=
     ok_init W [] v = true -> single W v = true ->
     D t [] v rest = Some (replay t (fst (spec_init W [] v)), rest).
 
-(* ---- small facts ---- *)
+(* designation whose list ends in a range: <plain designators ds1> [a ... b] = v, v for one element.  The events are
+   the range's (relative to the array at q ++ p1), then whatever the enclosing aggregates take from the stream *)
+Definition range_events (e : ty) (v : init) (a b : nat) : list event :=
+  flat_map (fun k => map (at_ [k]) (fst (spec_init e [] v))) (seq a (S b - a)).
 
-Lemma map_cons_singleton : forall (k : nat) (l : list path) p, map (cons k) l = [p] -> exists p', l = [p'] /\ p = k :: p'.
-Proof.
-  intros k l p H. destruct l as [|p' [|p2 l]]; cbn [map] in H; try discriminate.
-  injection H as <-. exists p'. split; reflexivity.
-Qed.
+Definition gpost (U : ty) (q : path) (t : itree) (L : list event) (rest : items) (r : res) : Prop :=
+  exists E tok', r = Some (replay t E, tok') /\ E <> [] /\
+     L = map (at_ q) E ++ spec_items U (next U q) tok' /\
+     ok_items U (next U q) tok' = true /\ isuffix tok' rest.
+
+Definition D_range_ok (D : DT) (d : nat) : Prop :=
+  forall W t U q ds1 a b p1 n e v rest,
+    shaped W t -> wf W = true -> sub U q = Some W ->
+    tdepth W + idepth_items (ICons [] v rest) < d ->
+    no_range ds1 = true -> targets W ds1 = [p1] -> sub W p1 = Some (TArray n e) ->
+    range_ok (TArray n e) a b v = true -> ok_init e [] v = true ->
+    ok_items U (next U (q ++ p1 ++ [b])) rest = true ->
+    gpost U q t (map (at_ (q ++ p1)) (range_events e v a b) ++ spec_items U (next U (q ++ p1 ++ [b])) rest) rest
+          (D t (ds1 ++ [DRange a b]) v rest).
+
+(* ---- small facts ---- *)
 
 Lemma wf_child : forall W i V, wf W = true -> child W i = Some V -> wf V = true.
 Proof.
@@ -113,29 +127,41 @@ Proof. induction done as [|x done IH]; intros cs c0 z; [reflexivity|]. cbn [app 
 Lemma nth_error_app_len : forall (done cs : list itree) c0, nth_error (done ++ c0 :: cs) (length done) = Some c0.
 Proof. induction done as [|x done IH]; intros cs c0; [reflexivity|]. cbn [app length nth_error]. apply IH. Qed.
 
+Lemma string_events_step : forall q k n s, k < n ->
+  string_events q k (Some n) s
+  = Set_ (q ++ [k]) (match s with c :: _ => Some (VChar c) | [] => None end) :: string_events q (S k) (Some n) (tl s).
+Proof.
+  intros q k n s Hk. destruct s as [|c s].
+  - cbn [string_events tl zero_fill]. replace (n - k) with (S (n - S k)) by lia. reflexivity.
+  - cbn [string_events in_bound tl]. assert (Hb : k <? n = true) by (apply Nat.ltb_lt; exact Hk). rewrite Hb. reflexivity.
+Qed.
+
+Lemma string_events_full : forall q k n s, n <= k -> string_events q k (Some n) s = [].
+Proof.
+  intros q k n s Hk. destruct s as [|c s].
+  - cbn [string_events zero_fill]. replace (n - k) with 0 by lia. reflexivity.
+  - cbn [string_events in_bound]. assert (Hb : k <? n = false) by (apply Nat.ltb_ge; exact Hk). rewrite Hb. reflexivity.
+Qed.
+
 Lemma string_fill_gen : forall e cs s done n, Forall (shaped (TScalar 1)) cs -> n = length done + length cs ->
   exists cs', string_fill cs s = Some cs' /\
     replay (NArray false e (done ++ cs)) (string_events [] (length done) (Some n) s) = NArray false e (done ++ cs').
 Proof.
   intros e cs. induction cs as [|c0 cs IH]; intros s done n Hall Hn.
-  - exists []. split; [destruct s; reflexivity|]. destruct s as [|c s]; [reflexivity|].
-    cbn [string_events in_bound]. assert (Hb : length done <? n = false) by (apply Nat.ltb_ge; cbn [length] in Hn; lia).
-    rewrite Hb. reflexivity.
+  - exists []. split; [reflexivity|]. rewrite string_events_full by (cbn [length] in Hn; lia). reflexivity.
   - inversion Hall as [|c0' cs' Hc0 Hall']; subst.
     destruct c0 as [y|f e0 cs0|cs0|mem cs0];
         try (apply shaped_array in Hc0; destruct Hc0 as [_ [Hc0 _]]; discriminate);
         try (apply shaped_struct in Hc0; destruct Hc0 as [ms0 [Hc0 _]]; discriminate);
         try (apply shaped_union in Hc0; destruct Hc0 as [ms0 [Hc0 _]]; discriminate).
-    destruct s as [|ch s].
-    + exists (NScalar y :: cs). split; [reflexivity|reflexivity].
-    + 
-      destruct (IH s (done ++ [NScalar (Some (VChar ch))]) (length done + length (NScalar y :: cs)) Hall') as [r [Hr Hrep]].
-      { rewrite app_length. cbn [length]. lia. }
-      exists (NScalar (Some (VChar ch)) :: r). split. { cbn [string_fill]. rewrite Hr. reflexivity. }
-      cbn [string_events in_bound]. assert (Hb : length done <? length done + length (NScalar y :: cs) = true) by (apply Nat.ltb_lt; cbn [length]; lia).
-      rewrite Hb. unfold replay. cbn [fold_left apply_ev app tset]. unfold upd. rewrite nth_error_app_len, set_nth_app. cbn [tset].
-      rewrite app_length in Hrep. cbn [length] in Hrep. rewrite Nat.add_1_r in Hrep. rewrite <- !app_assoc in Hrep. cbn [app] in Hrep.
-      exact Hrep.
+    set (x := match s with c :: _ => Some (VChar c) | [] => None end).
+    destruct (IH (tl s) (done ++ [NScalar x]) (length done + length (NScalar y :: cs)) Hall') as [r [Hr Hrep]].
+    { rewrite app_length. cbn [length]. lia. }
+    exists (NScalar x :: r). split. { cbn [string_fill]. rewrite Hr. reflexivity. }
+    rewrite string_events_step by (cbn [length]; lia). fold x.
+    unfold replay. cbn [fold_left apply_ev app tset]. unfold upd. rewrite nth_error_app_len, set_nth_app. cbn [tset].
+    rewrite app_length in Hrep. cbn [length] in Hrep. rewrite Nat.add_1_r in Hrep. rewrite <- !app_assoc in Hrep. cbn [app] in Hrep.
+    exact Hrep.
 Qed.
 
 Lemma string_fill_ok : forall e cs s, Forall (shaped e) cs -> is_char_array (TArray (Some (length cs)) e) = true ->
@@ -157,6 +183,7 @@ Section Level.
   Hypothesis HD : D_ok Dc d.
   Hypothesis HI2s : I2_single I2c d.
   Hypothesis HDs : D_single Dc d.
+  Hypothesis HDr : D_range_ok Dc d.
 
   (* array_initializer2 / struct_initializer2 from index i *)
   Lemma loop2_ok : forall n w W U q, wrapper w -> wf W = true -> sub U q = Some W ->
@@ -211,20 +238,20 @@ Section Level.
 
   (* after child i is done (events E1, stream tok1), the loop of array_initializer2 / struct_initializer2 goes on
      from i+1: used inside designation *)
-  Lemma cont_ok : forall w W U q cs i c V E1 tok1 tok rest0 c0,
+  Lemma cont_ok : forall w W U q cs i c V E1 tok1 (L : list event) rest0,
     wrapper w -> wf W = true -> sub U q = Some W -> shaped W (w cs) ->
     nth_error cs i = Some c -> child W i = Some V -> shaped V c ->
     E1 <> [] ->
-    spec_items U c0 tok = map (at_ (q ++ [i])) E1 ++ spec_items U (next U (q ++ [i])) tok1 ->
+    L = map (at_ (q ++ [i])) E1 ++ spec_items U (next U (q ++ [i])) tok1 ->
     ok_items U (next U (q ++ [i])) tok1 = true -> isuffix tok1 rest0 ->
     tdepth W + idepth_items tok1 <= d ->
     exists E cs' tok',
       array_loop2 I2c (set_nth cs i (replay c E1)) (S i) (length cs - S i) tok1 = Some (cs', tok') /\
       w cs' = replay (w cs) E /\ E <> [] /\
-      spec_items U c0 tok = map (at_ q) E ++ spec_items U (next U q) tok' /\
+      L = map (at_ q) E ++ spec_items U (next U q) tok' /\
       ok_items U (next U q) tok' = true /\ isuffix tok' rest0.
   Proof.
-    intros w W U q cs i c V E1 tok1 tok rest0 c0 Hw Hwf HW Hsh Hc HV HshV HE1 Hs1 Hok1 Hsuf1 Hdep1.
+    intros w W U q cs i c V E1 tok1 L rest0 Hw Hwf HW Hsh Hc HV HshV HE1 Hs1 Hok1 Hsuf1 Hdep1.
     assert (Hnext : next U (q ++ [i]) = cur2 U q (length cs) (S i)).
     { rewrite (next_snoc U q W i V HW HV), (wrapped_nxt w W cs i Hw Hsh). unfold cur2.
       destruct (S i <? length cs); reflexivity. }
@@ -303,7 +330,7 @@ Section Level.
         split. { cbn [array_loop1]. rewrite Hlen, Hib, Hc, Hr. exact Hr2. }
         split. { rewrite replay_app, (replay_child (NArray false e) Hw E1 cs i c Hc). exact Hw2. }
         fold W in Hs2. rewrite Hs1, Hs2. reflexivity.
-      + destruct (ok_items_desig W _ d0 ds' v tl Hok) as [[p [Hp [Hnr Hokp]]]|Hrange].
+      + destruct (ok_items_desig W _ d0 ds' v tl Hok) as [[p [Hp [Hnr Hokp]]]|[Hrange|Hnest]].
         2: { (* [a ... b] = v *)
           destruct Hrange as [a [b [-> [-> [Hr [Hokb Hoktl]]]]]].
           destruct (spec_items_range (Some len) e a b v tl (cur1 len i) Hr Hokb) as [Hsr Hsnd]. fold W in Hsr, Hsnd.
@@ -328,6 +355,36 @@ Section Level.
                    rewrite Ha, Hb, Hle'. cbn [andb]. replace (S b - a) with (S (b - a)) by lia. rewrite Hfill. exact Hr2. }
           split. { rewrite replay_app, <- Hrep1. exact Hw2. }
           fold W in Hs2. rewrite Hsr, Hs2. reflexivity. }
+        2: { (* [k] <plain designators> [a ... b] = v *)
+          destruct Hnest as [ds1 [a [b [p1 [n0 [e0 [-> [Hnr1 [Ht1 [Hs1' [Hr [Hoke Hoktl]]]]]]]]]]]].
+          pose proof (spec_items_range_tail W (cur1 len i) (d0 :: ds1) a b p1 n0 e0 v tl Hnr1 Ht1 Hs1' Hr Hoke) as Hspec.
+          destruct d0 as [k|a0 b0|m]; [|cbn [no_range forallb] in Hnr1; discriminate|cbn [targets W] in Ht1; discriminate].
+          cbn [targets W in_bound] in Ht1. destruct (k <? len) eqn:Hkb; [|discriminate].
+          destruct (map_cons_singleton k _ p1 Ht1) as [p1' [Ht1' ->]].
+          cbn [no_range forallb andb] in Hnr1.
+          assert (Hk : k < length cs) by (apply Nat.ltb_lt in Hkb; lia).
+          destruct (Forall_nth e cs k Hall Hk) as [c [Hc Hshc]].
+          assert (Hsub : sub W [k] = Some e) by (cbn [sub child W in_bound]; rewrite Hkb; reflexivity).
+          assert (Hs1'' : sub e p1' = Some (TArray n0 e0)).
+          { cbn [sub child W in_bound] in Hs1'. rewrite Hkb in Hs1'. exact Hs1'. }
+          assert (Hde : tdepth e + idepth_items (ICons [] v tl) < d) by (cbn [tdepth W idepth_items] in *; lia).
+          destruct (HDr e c W [k] ds1 a b p1' n0 e0 v tl Hshc Hwfe Hsub Hde Hnr1 Ht1' Hs1'' Hr Hoke Hoktl)
+            as [E1 [tok1 [Hr1 [HE1 [Hs1 [Hok1 Hsuf1]]]]]].
+          assert (Hnext : next W [k] = cur1 len (S k)).
+          { cbn [next child W in_bound]. rewrite Hkb. cbn [next nxt in_bound]. reflexivity. }
+          rewrite Hnext in Hs1, Hok1.
+          destruct (IH e len (set_nth cs k (replay c E1)) (S k) tok1) as [E2 [cs' [Hr2 [Hw2 Hs2]]]].
+          { rewrite set_nth_length. exact Hlen. }
+          { apply Forall_set_nth; [exact Hall|]. apply shaped_replay. exact Hshc. }
+          { exact Hwf. }
+          { apply isuffix_length in Hsuf1. lia. }
+          { apply isuffix_idepth in Hsuf1. fold W. lia. }
+          { exact Hok1. }
+          exists (map (at_ [k]) E1 ++ E2), cs'.
+          split. { cbn [array_loop1 array_designator]. rewrite Hlen, Hkb. replace (S k - k) with 1 by lia.
+                   cbn [designate_range]. rewrite Hc, Hr1. exact Hr2. }
+          split. { rewrite replay_app, (replay_child (NArray false e) Hw E1 cs k c Hc). exact Hw2. }
+          fold W in Hs2. cbn [app] in Hspec, Hs1. unfold range_events in Hs1. rewrite Hspec, Hs1, Hs2. reflexivity. }
         destruct d0 as [k|a b|m]; [|cbn [no_range forallb] in Hnr; discriminate|cbn [targets W] in Hp; discriminate].
         cbn [targets W in_bound] in Hp. destruct (k <? len) eqn:Hkb; [|discriminate].
         destruct (map_cons_singleton k _ p Hp) as [p' [Hp' ->]].
@@ -394,8 +451,37 @@ Section Level.
         split. { cbn [struct_loop1]. rewrite Hc, Hr. exact Hr2. }
         split. { rewrite replay_app, (replay_child NStruct Hw E1 cs i c Hc). exact Hw2. }
         fold W in Hs2. rewrite Hs1, Hs2. reflexivity.
-      + destruct (ok_items_desig W _ d0 ds' v tl Hok) as [[p [Hp [Hnr Hokp]]]|Hrange].
+      + destruct (ok_items_desig W _ d0 ds' v tl Hok) as [[p [Hp [Hnr Hokp]]]|[Hrange|Hnest]].
         2: { destruct (simple_range_array _ _ _ _ _ Hrange) as [n0 [e0 Heq]]. unfold W in Heq. discriminate Heq. }
+        2: { (* .m <plain designators> [a ... b] = v *)
+          destruct Hnest as [ds1 [a [b [p1 [n0 [e0 [-> [Hnr1 [Ht1 [Hs1' [Hr [Hoke Hoktl]]]]]]]]]]]].
+          pose proof (spec_items_range_tail W (cur1 (length ms) i) (d0 :: ds1) a b p1 n0 e0 v tl Hnr1 Ht1 Hs1' Hr Hoke) as Hspec.
+          destruct d0 as [k|a0 b0|m]; [cbn [targets W] in Ht1; discriminate|cbn [targets W] in Ht1; discriminate|].
+          cbn [targets W] in Ht1. destruct (nth_error ms m) as [V|] eqn:HV; [|discriminate].
+          destruct (map_cons_singleton m _ p1 Ht1) as [p1' [Ht1' ->]].
+          cbn [no_range forallb andb] in Hnr1.
+          destruct (Forall2_nth ms cs m V Hall HV) as [c [Hc Hshc]].
+          assert (HwfV : wf V = true) by (apply (wf_child W m V Hwf); exact HV).
+          assert (Hsub : sub W [m] = Some V) by (cbn [sub child W]; rewrite HV; reflexivity).
+          assert (Hs1'' : sub V p1' = Some (TArray n0 e0)).
+          { cbn [sub child W] in Hs1'. rewrite HV in Hs1'. exact Hs1'. }
+          assert (Hde : tdepth V + idepth_items (ICons [] v tl) < d).
+          { assert (tdepth V < tdepth W) by (apply (tdepth_child W m V); exact HV). cbn [idepth_items]. lia. }
+          destruct (HDr V c W [m] ds1 a b p1' n0 e0 v tl Hshc HwfV Hsub Hde Hnr1 Ht1' Hs1'' Hr Hoke Hoktl)
+            as [E1 [tok1 [Hr1 [HE1 [Hs1 [Hok1 Hsuf1]]]]]].
+          assert (Hnext : next W [m] = cur1 (length ms) (S m)).
+          { cbn [next child W]. rewrite HV. cbn [next nxt]. reflexivity. }
+          rewrite Hnext in Hs1, Hok1.
+          destruct (IH ms (set_nth cs m (replay c E1)) (S m) tok1) as [E2 [cs' [Hr2 [Hw2 Hs2]]]].
+          { eapply Forall2_set_nth; [exact Hall|exact HV|]. apply shaped_replay. exact Hshc. }
+          { exact Hwf. }
+          { apply isuffix_length in Hsuf1. lia. }
+          { apply isuffix_idepth in Hsuf1. fold W. lia. }
+          { exact Hok1. }
+          exists (map (at_ [m]) E1 ++ E2), cs'.
+          split. { cbn [struct_loop1]. rewrite Hc, Hr1. exact Hr2. }
+          split. { rewrite replay_app, (replay_child NStruct Hw E1 cs m c Hc). exact Hw2. }
+          fold W in Hs2. cbn [app] in Hspec, Hs1. unfold range_events in Hs1. rewrite Hspec, Hs1, Hs2. reflexivity. }
         destruct d0 as [k|a b|m]; [cbn [targets W] in Hp; discriminate|cbn [targets W] in Hp; discriminate|].
         cbn [targets W] in Hp. destruct (nth_error ms m) as [V|] eqn:HV; [|discriminate].
         destruct (map_cons_singleton m _ p Hp) as [p' [Hp' ->]].
@@ -444,7 +530,7 @@ Section Level.
     - (* scalar *)
       apply shaped_scalar in Hsh. destruct Hsh as [k ->].
       destruct v as [e0|s|l].
-      + exists [Set_ [] (VExpr e0)], rest. cbn [spec_init first_leaf down fst snd] in *. rewrite app_nil_r in *.
+      + exists [Set_ [] (Some (VExpr e0))], rest. cbn [spec_init first_leaf down fst snd] in *. rewrite app_nil_r in *.
         split; [reflexivity|]. split; [discriminate|]. split; [reflexivity|]. split; [exact Hokr|apply suf_refl].
       + cbn [ok_init sub str_ok] in Hoki. destruct s; discriminate.
       + cbn [ok_init sub] in Hoki.
@@ -468,39 +554,53 @@ Section Level.
       assert (Hpos : 0 < length cs) by (cbn [wf W] in Hwf; apply andb_prop in Hwf; destruct Hwf as [Hn _]; apply Nat.ltb_lt; exact Hn).
       assert (HV : child W 0 = Some e).
       { cbn [child W in_bound]. assert (Hb : 0 <? length cs = true) by (apply Nat.ltb_lt; exact Hpos). rewrite Hb. reflexivity. }
-      destruct v as [x|s|l].
-      + rewrite <- (spec_at U q W (IExpr x) rest HW).
-        rewrite (spec_items_descend U q W e (IExpr x) rest HW HV I).
-        apply (ok_items_descend U q W e (IExpr x) rest HW HV I) in Hok0.
+      assert (Helide : forall v0, descends W v0 -> ok_items U (Some q) (ICons [] v0 rest) = true ->
+                post U q (NArray false e cs) (Some q) (ICons [] v0 rest) rest (array_initializer2 I2c Dc (NArray false e cs) 0 (ICons [] v0 rest))).
+      { intros v0 Hdesc Hokv. unfold post.
+        rewrite (spec_items_descend U q W e v0 rest HW HV Hdesc).
+        apply (ok_items_descend U q W e v0 rest HW HV Hdesc) in Hokv.
         assert (Hcur : cur2 U q (length cs) 0 = @Some path (q ++ [0])).
         { unfold cur2. assert (Hb : 0 <? length cs = true) by (apply Nat.ltb_lt; exact Hpos). rewrite Hb. reflexivity. }
-        rewrite <- Hcur in Hok0 |- *.
-        destruct (loop2_ok (length cs - 0) (NArray false e) W U q Hw Hwf HW cs 0 (ICons [] (IExpr x) rest) Hsh0 eq_refl ltac:(lia) Hok0)
+        rewrite <- Hcur in Hokv |- *.
+        assert (Hdv : tdepth W + idepth_items (ICons [] v0 rest) <= d).
+        { destruct v0; cbn [idepth_items idepth] in *; try lia. contradiction. }
+        destruct (loop2_ok (length cs - 0) (NArray false e) W U q Hw Hwf HW cs 0 (ICons [] v0 rest) Hsh0 eq_refl Hdv Hokv)
           as [E [cs' [tok' [Hr [Hw2 [Hs [Hok2 [Hsuf Hne]]]]]]]].
-        destruct (Hne Hpos (IExpr x) rest eq_refl) as [HE Hsuf'].
-        exists E, tok'. split. { unfold initializer2, array_initializer2, unflex. rewrite Hr, Hw2. reflexivity. }
-        split; [exact HE|]. split; [exact Hs|]. split; [exact Hok2|exact Hsuf'].
-      + (* a string literal for a character array (p14) *)
-        cbn [ok_init sub] in Hoki. destruct s as [|c0 s0]; [discriminate|].
-        cbn [str_ok W] in Hoki. fold W in Hoki. apply andb_prop in Hoki. destruct Hoki as [Hca _].
-        destruct (string_fill_ok e cs (c0 :: s0) Hall Hca) as [cs' [Hsf Hrep]].
-        assert (Hq : str_target W [] = []) by (cbn [str_target down_str W]; fold W; rewrite Hca; reflexivity).
-        cbn [spec_init] in Hokr |- *. rewrite Hq in Hokr |- *. cbn [fst snd sub array_bound W] in Hokr |- *. rewrite app_nil_r in Hokr |- *.
-        exists (string_events [] 0 (Some (length cs)) (c0 :: s0)), rest.
-        split. { unfold initializer2, string_initializer. rewrite Hsf, Hrep. reflexivity. }
-        split. { cbn [string_events in_bound]. assert (Hb : 0 <? length cs = true) by (apply Nat.ltb_lt; exact Hpos). rewrite Hb. discriminate. }
-        split; [reflexivity|]. split; [exact Hokr|apply suf_refl].
+        destruct (Hne Hpos v0 rest eq_refl) as [HE Hsuf'].
+        exists E, tok'. split. { unfold array_initializer2, unflex. rewrite Hr, Hw2. reflexivity. }
+        split; [exact HE|]. split; [exact Hs|]. split; [exact Hok2|exact Hsuf']. }
+      destruct v as [x|s|l].
+      + rewrite <- (spec_at U q W (IExpr x) rest HW). apply (Helide (IExpr x) I Hok0).
+      + cbn [ok_init sub] in Hoki. destruct s as [|c0 s0]; [discriminate|].
+        cbn [str_ok W] in Hoki. fold W in Hoki. apply andb_prop in Hoki. destruct Hoki as [_ Hoki].
+        destruct (is_char_array W) eqn:Hca.
+        * (* a string literal for a character array (p14) *)
+          destruct (string_fill_ok e cs (c0 :: s0) Hall Hca) as [cs' [Hsf Hrep]].
+          assert (He : is_integer_elem e = true).
+          { cbn [is_char_array W] in Hca. destruct e as [[|[|k]]| | |]; try discriminate. reflexivity. }
+          assert (Hq : str_target W [] = []) by (cbn [str_target down_str W]; fold W; rewrite Hca; reflexivity).
+          cbn [spec_init] in Hokr |- *. rewrite Hq in Hokr |- *. cbn [fst snd sub array_bound W] in Hokr |- *. rewrite app_nil_r in Hokr |- *.
+          exists (string_events [] 0 (Some (length cs)) (c0 :: s0)), rest.
+          split. { unfold initializer2. rewrite He. unfold string_initializer. rewrite Hsf, Hrep. reflexivity. }
+          split. { cbn [string_events in_bound]. assert (Hb : 0 <? length cs = true) by (apply Nat.ltb_lt; exact Hpos). rewrite Hb. discriminate. }
+          split; [reflexivity|]. split; [exact Hokr|apply suf_refl].
+        * (* a string literal for the first element (p20) *)
+          cbn [orb] in Hoki.
+          assert (He : is_integer_elem e = false) by (destruct e; [discriminate Hoki|reflexivity|reflexivity|reflexivity]).
+          rewrite <- (spec_at U q W (IStr (c0 :: s0)) rest HW).
+          destruct (Helide (IStr (c0 :: s0)) Hca Hok0) as [E [tok' [Hr Hrest]]].
+          exists E, tok'. split; [|exact Hrest]. unfold initializer2. rewrite He. exact Hr.
       + destruct (ok_braced_cases W l I Hoki) as [[s [-> [Hca [Hsne _]]]]|[Hokl [Hlne Hnstr]]].
         * (* { "string" } *)
           destruct (string_fill_ok e cs s Hall Hca) as [cs' [Hsf Hrep]].
           rewrite (spec_init_braced_str W s Hca) in *. cbn [fst snd array_bound W] in *. rewrite app_nil_r in *.
           assert (He : is_integer_elem e = true).
           { cbn [is_char_array W] in Hca. destruct e as [[|[|k]]| | |]; try discriminate. reflexivity. }
-          exists (Clear [] :: string_events [] 0 (Some (length cs)) s), rest.
-          split. { unfold initializer2. rewrite He. unfold string_initializer. rewrite Hsf.
-                   unfold replay at 1. cbn [fold_left apply_ev ttouch]. fold (replay (NArray false e cs) (string_events [] 0 (Some (length cs)) s)).
-                   rewrite Hrep. reflexivity. }
-          split; [discriminate|]. split; [reflexivity|]. split; [exact Hokr|apply suf_refl].
+          exists (string_events [] 0 (Some (length cs)) s), rest.
+          split. { unfold initializer2. rewrite He. unfold string_initializer. rewrite Hsf, Hrep. reflexivity. }
+          split. { destruct s as [|c0 s0]; [congruence|]. cbn [string_events in_bound].
+                   assert (Hb : 0 <? length cs = true) by (apply Nat.ltb_lt; exact Hpos). rewrite Hb. discriminate. }
+          split; [reflexivity|]. split; [exact Hokr|apply suf_refl].
         * rewrite (spec_init_braced W l ltac:(intros k0; discriminate) Hnstr) in *. cbn [fst snd] in *. rewrite app_nil_r in *.
           assert (Hie : forall s, l = ICons [] (IStr s) INil -> is_integer_elem e = false).
           { intros s ->. rewrite ok_items_head in Hokl. apply andb_prop in Hokl. destruct Hokl as [Hs1 _].
@@ -607,8 +707,33 @@ Section Level.
                    rewrite (replay_union_child E1 mem cs 0 c HE1 Hc). reflexivity. }
           split; [discriminate|]. split. { rewrite map_at_nil, Hs1. reflexivity. }
           split; [exact Hokr|apply suf_refl].
-        * destruct (ok_items_desig W _ d0 ds' v' INil Hoki) as [[p [Hp [Hnr Hokp]]]|Hrange].
+        * destruct (ok_items_desig W _ d0 ds' v' INil Hoki) as [[p [Hp [Hnr Hokp]]]|[Hrange|Hnest]].
           2: { destruct (simple_range_array _ _ _ _ _ Hrange) as [n0 [e0 Heq]]. unfold W in Heq. discriminate Heq. }
+          2: { (* { .m <plain designators> [a ... b] = v } *)
+            destruct Hnest as [ds1 [a [b [p1 [n0 [e0 [-> [Hnr1 [Ht1 [Hs1' [Hr [Hoke Hoktl]]]]]]]]]]]].
+            pose proof (spec_items_range_tail W (Some [0]) (d0 :: ds1) a b p1 n0 e0 v' INil Hnr1 Ht1 Hs1' Hr Hoke) as Hspec.
+            destruct d0 as [k|a0 b0|m]; [cbn [targets W] in Ht1; discriminate|cbn [targets W] in Ht1; discriminate|].
+            cbn [targets W] in Ht1. destruct (nth_error ms m) as [Vm|] eqn:HVm; [|discriminate].
+            destruct (map_cons_singleton m _ p1 Ht1) as [p1' [Ht1' ->]].
+            cbn [no_range forallb andb] in Hnr1.
+            destruct (Forall2_nth ms cs m Vm Hall HVm) as [c [Hc Hshc]].
+            assert (HwfV : wf Vm = true) by (apply (wf_child W m Vm Hwf); exact HVm).
+            assert (HsubV : sub W [m] = Some Vm) by (cbn [sub child W]; rewrite HVm; reflexivity).
+            assert (Hs1'' : sub Vm p1' = Some (TArray n0 e0)).
+            { cbn [sub child W] in Hs1'. rewrite HVm in Hs1'. exact Hs1'. }
+            assert (HdV : tdepth Vm + idepth_items (ICons [] v' INil) < d).
+            { assert (tdepth Vm < tdepth W) by (apply (tdepth_child W m Vm); exact HVm). cbn [idepth_items] in *. lia. }
+            destruct (HDr Vm c W [m] ds1 a b p1' n0 e0 v' INil Hshc HwfV HsubV HdV Hnr1 Ht1' Hs1'' Hr Hoke Hoktl)
+              as [E1 [tok1 [Hr1 [HE1 [Hs1 [Hok1 Hsuf1]]]]]].
+            apply isuffix_nil in Hsuf1. subst tok1. rewrite !spec_items_nil, !app_nil_r in Hs1.
+            exists (Clear [] :: map (at_ [m]) E1), rest.
+            split. { unfold initializer2, union_initializer. rewrite Hc, Hr1.
+                     unfold replay at 2. cbn [fold_left apply_ev ttouch]. fold (replay (NUnion mem cs) (map (at_ [m]) E1)).
+                     rewrite (replay_union_child E1 mem cs m c HE1 Hc). reflexivity. }
+            split; [discriminate|].
+            split. { rewrite map_at_nil. cbn [app] in Hspec, Hs1. unfold range_events in Hs1.
+                     rewrite Hspec, spec_items_nil, app_nil_r, Hs1. reflexivity. }
+            split; [exact Hokr|apply suf_refl]. }
           destruct d0 as [k|a b|m]; [cbn [targets W] in Hp; discriminate|cbn [targets W] in Hp; discriminate|].
           cbn [targets W] in Hp. destruct (nth_error ms m) as [Vm|] eqn:HVm; [|discriminate].
           destruct (map_cons_singleton m _ p Hp) as [p' [Hp' ->]].
@@ -658,7 +783,7 @@ Section Level.
         destruct (HD e c U (q ++ [k]) ds' p' v rest Hshc Hwfe HsubV Hde Hnr Hp' Hok') as [E1 [tok1 [Hr [HE1 [Hs1 [Hok1 Hsuf1]]]]]].
         assert (Hdep1 : tdepth W + idepth_items tok1 <= d).
         { apply isuffix_idepth in Hsuf1. cbn [idepth_items] in Hdep. lia. }
-        destruct (cont_ok (NArray false e) W U q cs k c e E1 tok1 (ICons [] v rest) rest _ Hw Hwf HW Hsh0 Hc HV Hshc HE1 Hs1 Hok1 Hsuf1 Hdep1)
+        destruct (cont_ok (NArray false e) W U q cs k c e E1 tok1 _ rest Hw Hwf HW Hsh0 Hc HV Hshc HE1 Hs1 Hok1 Hsuf1 Hdep1)
           as [E [cs' [tok' [Hr2 [Hw2 [HE [Hs [Hok2 Hsuf]]]]]]]].
         exists E, tok'.
         split. { unfold designation. cbn [array_designator]. rewrite Hkb. replace (S k - k) with 1 by lia.
@@ -684,7 +809,7 @@ Section Level.
         destruct (HD V c U (q ++ [m]) ds' p' v rest Hshc HwfV HsubV Hde Hnr Hp' Hok') as [E1 [tok1 [Hr [HE1 [Hs1 [Hok1 Hsuf1]]]]]].
         assert (Hdep1 : tdepth W + idepth_items tok1 <= d).
         { apply isuffix_idepth in Hsuf1. cbn [idepth_items] in Hdep. lia. }
-        destruct (cont_ok NStruct W U q cs m c V E1 tok1 (ICons [] v rest) rest _ Hw Hwf HW Hsh0 Hc HV Hshc HE1 Hs1 Hok1 Hsuf1 Hdep1)
+        destruct (cont_ok NStruct W U q cs m c V E1 tok1 _ rest Hw Hwf HW Hsh0 Hc HV Hshc HE1 Hs1 Hok1 Hsuf1 Hdep1)
           as [E [cs' [tok' [Hr2 [Hw2 [HE [Hs [Hok2 Hsuf]]]]]]]].
         exists E, tok'.
         split. { unfold designation. rewrite Hc, Hr. unfold struct_initializer2. rewrite set_nth_length, Hr2, Hw2. reflexivity. }
@@ -725,7 +850,8 @@ Section Level.
       unfold initializer2. destruct l as [|[|d0 ds'] v' tl]; try reflexivity.
       destruct (I2c (NScalar x) v' tl) as [[t' [|ds2 v2 tl2]]|]; reflexivity.
     - apply shaped_array in Hsh. destruct Hsh as [_ [-> _]]. destruct v as [x0|s|l]; [discriminate Hs| |].
-      + unfold initializer2. destruct (string_initializer (NArray f e cs) s); reflexivity.
+      + cbn [single is_char_array] in Hs. destruct e as [[|[|k]]| | |]; try discriminate.
+        unfold initializer2. cbn [is_integer_elem]. destruct (string_initializer (NArray f (TScalar 1) cs) s); reflexivity.
       + unfold initializer2.
         destruct l as [|[|d0 ds'] [x0|s|l'] [|ds2 v2 tl2]]; destruct (is_integer_elem e);
           try (destruct (array_initializer1 I2c Dc (NArray f e cs) _); reflexivity);
@@ -753,14 +879,137 @@ Section Level.
 
   Lemma D_single_step : D_single (designation I2c Dc) (S d).
   Proof. intros W t v rest Hsh Hwf Hdep Hok Hsingle. unfold designation. apply (I2_single_step W); assumption. Qed.
+  (* designation ending in a range, one level up *)
+  Lemma D_range_step : D_range_ok (designation I2c Dc) (S d).
+  Proof.
+    intros W t U q ds1 a b p1 n e0 v rest Hsh Hwf HW Hdep Hnr Hp Hsp Hr Hoke Hokt.
+    destruct ds1 as [|d0 ds1'].
+    - (* the node is the array: [a ... b] = v, then array_initializer2 from b + 1 *)
+      cbn [targets] in Hp. injection Hp as <-. cbn [sub] in Hsp. injection Hsp as ->.
+      cbn [app] in *. rewrite app_nil_r.
+      destruct t as [x|f e cs|cs|mem cs];
+        try (apply shaped_scalar in Hsh; destruct Hsh as [k Heq]; discriminate Heq);
+        try (apply shaped_struct in Hsh; destruct Hsh as [ms [Heq _]]; discriminate Heq);
+        try (apply shaped_union in Hsh; destruct Hsh as [ms [Heq _]]; discriminate Heq).
+      pose proof Hsh as Hsh0. apply shaped_array in Hsh. destruct Hsh as [-> [Heq Hall]]. injection Heq as -> ->.
+      set (W := TArray (Some (length cs)) e) in *.
+      assert (Hw : wrapper (NArray false e)) by (left; exists e; reflexivity).
+      pose proof Hr as Hr'. cbn [range_ok W] in Hr'. apply andb_prop in Hr'. destruct Hr' as [Hab Hsingle].
+      apply andb_prop in Hab. destruct Hab as [Hle Hb]. cbn [in_bound] in Hb.
+      assert (Hwfe : wf e = true) by (cbn [wf W] in Hwf; apply andb_prop in Hwf; apply Hwf).
+      assert (Hdv : tdepth e + idepth v < d) by (cbn [tdepth W idepth_items] in Hdep; lia).
+      pose proof Hle as Hle'. apply Nat.leb_le in Hle'. pose proof Hb as Hb'. apply Nat.ltb_lt in Hb'.
+      destruct (range_fill e v rest (S b - a) a cs rest Hall Hwfe Hdv Hoke Hsingle ltac:(lia)) as [cs1 [Hfill [Hrep1 [Hall1 Hlen1]]]].
+      replace (S b - a) with (S (b - a)) in Hfill by lia.
+      assert (HV : child W b = Some e) by (cbn [child W in_bound]; rewrite Hb; reflexivity).
+      assert (Hnext : next U (q ++ [b]) = cur2 U q (length cs1) (S b)).
+      { rewrite (next_snoc U q W b e HW HV), (wrapped_nxt (NArray false e) W cs b Hw Hsh0), Hlen1. unfold cur2.
+        destruct (S b <? length cs); reflexivity. }
+      assert (Hsh1 : shaped W (NArray false e cs1)).
+      { apply shaped_array. rewrite Hlen1. repeat split. exact Hall1. }
+      rewrite Hnext in Hokt.
+      assert (Hdep1 : tdepth W + idepth_items rest <= d) by (cbn [idepth_items] in Hdep; lia).
+      destruct (loop2_ok (length cs1 - S b) (NArray false e) W U q Hw Hwf HW cs1 (S b) rest Hsh1 eq_refl Hdep1 Hokt)
+        as [E2 [cs' [tok' [Hr2 [Hw2 [Hs2 [Hok2 [Hsuf2 _]]]]]]]].
+      exists (range_events e v a b ++ E2), tok'.
+      split. { unfold designation. cbn [array_designator].
+               assert (Ha : a <? length cs = true) by (apply Nat.ltb_lt; lia).
+               rewrite Ha, Hb, Hle. cbn [andb]. replace (S b - a) with (S (b - a)) by lia. rewrite Hfill.
+               unfold array_initializer2, unflex. rewrite Hr2, Hw2, replay_app. unfold range_events. rewrite <- Hrep1. reflexivity. }
+      split. { unfold range_events. replace (S b - a) with (S (b - a)) by lia. cbn [seq flat_map].
+               destruct (fst (spec_init e [] v)) eqn:HX; [|discriminate].
+               exfalso. apply (spec_init_nonempty e [] v Hoke). exact HX. }
+      split. { rewrite Hnext, Hs2, map_app, app_assoc. reflexivity. }
+      split; [exact Hok2|exact Hsuf2].
+    - cbn [no_range forallb] in Hnr. apply andb_prop in Hnr. destruct Hnr as [Hd0 Hnr].
+      change ((d0 :: ds1') ++ [DRange a b]) with (d0 :: (ds1' ++ [DRange a b])).
+      destruct t as [x|f e cs|cs|mem cs].
+      + apply shaped_scalar in Hsh. destruct Hsh as [k ->]. destruct d0; cbn [targets] in Hp; discriminate.
+      + pose proof Hsh as Hsh0. apply shaped_array in Hsh. destruct Hsh as [-> [-> Hall]].
+        set (W := TArray (Some (length cs)) e) in *.
+        assert (Hw : wrapper (NArray false e)) by (left; exists e; reflexivity).
+        destruct d0 as [k|a0 b0|m]; [|discriminate Hd0|cbn [targets W] in Hp; discriminate].
+        cbn [targets W in_bound] in Hp. destruct (k <? length cs) eqn:Hkb; [|discriminate].
+        destruct (map_cons_singleton k _ p1 Hp) as [p' [Hp' ->]].
+        assert (Hk : k < length cs) by (apply Nat.ltb_lt in Hkb; lia).
+        destruct (Forall_nth e cs k Hall Hk) as [c [Hc Hshc]].
+        assert (HV : child W k = Some e) by (cbn [child W in_bound]; rewrite Hkb; reflexivity).
+        assert (Hwfe : wf e = true) by (apply (wf_child W k e Hwf); exact HV).
+        assert (HsubV : sub U (q ++ [k]) = Some e) by (eapply sub_snoc; eassumption).
+        assert (Hsp' : sub e p' = Some (TArray n e0)) by (cbn [sub] in Hsp; rewrite HV in Hsp; exact Hsp).
+        assert (Hde : tdepth e + idepth_items (ICons [] v rest) < d) by (cbn [tdepth W] in Hdep; lia).
+        assert (Hokt' : ok_items U (next U ((q ++ [k]) ++ p' ++ [b])) rest = true).
+        { rewrite <- app_assoc. exact Hokt. }
+        destruct (HDr e c U (q ++ [k]) ds1' a b p' n e0 v rest Hshc Hwfe HsubV Hde Hnr Hp' Hsp' Hr Hoke Hokt')
+          as [E1 [tok1 [Hr1 [HE1 [Hs1 [Hok1 Hsuf1]]]]]].
+        assert (Hdep1 : tdepth W + idepth_items tok1 <= d).
+        { apply isuffix_idepth in Hsuf1. cbn [idepth_items] in Hdep. lia. }
+        destruct (cont_ok (NArray false e) W U q cs k c e E1 tok1 _ rest Hw Hwf HW Hsh0 Hc HV Hshc HE1 Hs1 Hok1 Hsuf1 Hdep1)
+          as [E [cs' [tok' [Hr2 [Hw2 [HE [Hs [Hok2 Hsuf]]]]]]]].
+        exists E, tok'.
+        split. { unfold designation. cbn [array_designator]. rewrite Hkb. replace (S k - k) with 1 by lia.
+                 cbn [designate_range]. rewrite Hc, Hr1. unfold array_initializer2, unflex. rewrite set_nth_length, Hr2, Hw2. reflexivity. }
+        split; [exact HE|]. split. { rewrite <- Hs. rewrite <- !app_assoc. reflexivity. }
+        split; [exact Hok2|exact Hsuf].
+      + pose proof Hsh as Hsh0. apply shaped_struct in Hsh. destruct Hsh as [ms [-> Hall]].
+        set (W := TStruct ms) in *.
+        assert (Hw : wrapper NStruct) by (right; reflexivity).
+        destruct d0 as [k|a0 b0|m]; [cbn [targets W] in Hp; discriminate|discriminate Hd0|].
+        cbn [targets W] in Hp. destruct (nth_error ms m) as [V|] eqn:HVm; [|discriminate].
+        destruct (map_cons_singleton m _ p1 Hp) as [p' [Hp' ->]].
+        destruct (Forall2_nth ms cs m V Hall HVm) as [c [Hc Hshc]].
+        assert (HV : child W m = Some V) by exact HVm.
+        assert (HwfV : wf V = true) by (apply (wf_child W m V Hwf); exact HV).
+        assert (HsubV : sub U (q ++ [m]) = Some V) by (eapply sub_snoc; eassumption).
+        assert (Hsp' : sub V p' = Some (TArray n e0)) by (cbn [sub] in Hsp; rewrite HV in Hsp; exact Hsp).
+        assert (Hde : tdepth V + idepth_items (ICons [] v rest) < d).
+        { assert (tdepth V < tdepth W) by (apply (tdepth_child W m V); exact HV). lia. }
+        assert (Hokt' : ok_items U (next U ((q ++ [m]) ++ p' ++ [b])) rest = true).
+        { rewrite <- app_assoc. exact Hokt. }
+        destruct (HDr V c U (q ++ [m]) ds1' a b p' n e0 v rest Hshc HwfV HsubV Hde Hnr Hp' Hsp' Hr Hoke Hokt')
+          as [E1 [tok1 [Hr1 [HE1 [Hs1 [Hok1 Hsuf1]]]]]].
+        assert (Hdep1 : tdepth W + idepth_items tok1 <= d).
+        { apply isuffix_idepth in Hsuf1. cbn [idepth_items] in Hdep. lia. }
+        destruct (cont_ok NStruct W U q cs m c V E1 tok1 _ rest Hw Hwf HW Hsh0 Hc HV Hshc HE1 Hs1 Hok1 Hsuf1 Hdep1)
+          as [E [cs' [tok' [Hr2 [Hw2 [HE [Hs [Hok2 Hsuf]]]]]]]].
+        exists E, tok'.
+        split. { unfold designation. rewrite Hc, Hr1. unfold struct_initializer2. rewrite set_nth_length, Hr2, Hw2. reflexivity. }
+        split; [exact HE|]. split. { rewrite <- Hs. rewrite <- !app_assoc. reflexivity. }
+        split; [exact Hok2|exact Hsuf].
+      + apply shaped_union in Hsh. destruct Hsh as [ms [-> Hall]].
+        set (W := TUnion ms) in *.
+        destruct d0 as [k|a0 b0|m]; [cbn [targets W] in Hp; discriminate|discriminate Hd0|].
+        cbn [targets W] in Hp. destruct (nth_error ms m) as [V|] eqn:HVm; [|discriminate].
+        destruct (map_cons_singleton m _ p1 Hp) as [p' [Hp' ->]].
+        destruct (Forall2_nth ms cs m V Hall HVm) as [c [Hc Hshc]].
+        assert (HV : child W m = Some V) by exact HVm.
+        assert (HwfV : wf V = true) by (apply (wf_child W m V Hwf); exact HV).
+        assert (HsubV : sub U (q ++ [m]) = Some V) by (eapply sub_snoc; eassumption).
+        assert (Hsp' : sub V p' = Some (TArray n e0)) by (cbn [sub] in Hsp; rewrite HV in Hsp; exact Hsp).
+        assert (Hde : tdepth V + idepth_items (ICons [] v rest) < d).
+        { assert (tdepth V < tdepth W) by (apply (tdepth_child W m V); exact HV). lia. }
+        assert (Hokt' : ok_items U (next U ((q ++ [m]) ++ p' ++ [b])) rest = true).
+        { rewrite <- app_assoc. exact Hokt. }
+        destruct (HDr V c U (q ++ [m]) ds1' a b p' n e0 v rest Hshc HwfV HsubV Hde Hnr Hp' Hsp' Hr Hoke Hokt')
+          as [E1 [tok1 [Hr1 [HE1 [Hs1 [Hok1 Hsuf1]]]]]].
+        assert (Hnext : next U (q ++ [m]) = next U q).
+        { rewrite (next_snoc U q W m V HW HV). reflexivity. }
+        rewrite Hnext in Hs1, Hok1.
+        exists (map (at_ [m]) E1), tok1.
+        split. { unfold designation. rewrite Hc, Hr1. rewrite (replay_union_child E1 mem cs m c HE1 Hc). reflexivity. }
+        split. { destruct E1; [congruence|discriminate]. }
+        split. { rewrite map_at_app. rewrite <- Hs1. rewrite <- !app_assoc. reflexivity. }
+        split; [exact Hok1|exact Hsuf1].
+  Qed.
 End Level.
 
 Theorem levels_ok : forall d,
-  I2_ok (fst (level d)) d /\ D_ok (snd (level d)) d /\ I2_single (fst (level d)) d /\ D_single (snd (level d)) d.
+  I2_ok (fst (level d)) d /\ D_ok (snd (level d)) d /\ I2_single (fst (level d)) d /\ D_single (snd (level d)) d /\
+  D_range_ok (snd (level d)) d.
 Proof.
-  induction d as [|d [IHI [IHD [IHIs IHDs]]]].
+  induction d as [|d [IHI [IHD [IHIs [IHDs IHDr]]]]].
   - repeat split; intros W t; intros; lia.
   - cbn [level]. destruct (level d) as [i2c dc]. cbn [fst snd] in *.
     split; [apply I2_step; assumption|]. split; [apply D_step; assumption|].
-    split; [apply I2_single_step; assumption|apply D_single_step; assumption].
+    split; [apply I2_single_step; assumption|]. split; [apply D_single_step; assumption|apply D_range_step; assumption].
 Qed.
